@@ -463,7 +463,7 @@ func (p *Prog) geometricLoop(fn *ssa.Function, l *Loop) (loopClass, bool) {
 		}
 		// divisive, test on the running value itself: continue while x >= K (K >= 1), x <- x / k (k >= 2)
 		if phi, ok := bo.X.(*ssa.Phi); ok && l.Blocks[phi.Block()] {
-			if K, isC := constInt(bo.Y); isC && K >= 1 && (bo.Op == token.GEQ && exitsFalse || bo.Op == token.LSS && exitsTrue || bo.Op == token.GTR && exitsFalse && K >= 0) {
+			if K, isC := constInt(bo.Y); isC && (K >= 1 && (bo.Op == token.GEQ && exitsFalse || bo.Op == token.LSS && exitsTrue) || K >= 0 && bo.Op == token.GTR && exitsFalse || K == 0 && bo.Op == token.NEQ && exitsFalse) {
 				bt, isB := phi.Type().Underlying().(*types.Basic)
 				good := isB && bt.Info()&types.IsUnsigned != 0
 				n := 0
